@@ -221,7 +221,9 @@ Qed.
 
 Lemma inv_fail : forall h, inv h -> inv (h_step h HFailedConnect).
 Proof.
-  intros h Hinv. open_inv h Hinv. cbn [h_step apply_disconnect upd_h h_gr h_rtimer h_ltimers h_rib h_sess h_gen].
+  intros h Hinv. cbn [h_step]. destruct (h_admin_down h); [exact Hinv|].
+  destruct (h_sess h) eqn:Es0; [exact Hinv|]. clear Es0.
+  open_inv h Hinv. cbn [h_step apply_disconnect upd_h h_gr h_rtimer h_ltimers h_rib h_sess h_gen].
   split.
   - constructor; cbn [h_rib h_gen h_sess h_rtimer h_ltimers]; [assumption|].
     intros s Hs. destruct (Hsess s Hs) as [H1 [H2 [H3 [H4 [H5 H6]]]]]. subst rt.
@@ -447,9 +449,9 @@ Proof.
   rewrite <- app_assoc. cbn [app]. apply IH. apply fq_step. exact H.
 Qed.
 
-Lemma inv_force : forall h, inv h -> inv (h_step h HForceDown).
+Lemma inv_force_timers : forall h, inv h -> inv (force_timers h).
 Proof.
-  intros h Hinv. cbn [h_step]. destruct (h_rtimer h) eqn:Ert.
+  intros h Hinv. unfold force_timers. cbv zeta. destruct (h_rtimer h) eqn:Ert.
   - (* the restart timer is armed: phase PeerRestarting, no LLGR timer *)
     destruct Hinv as [Hg Hp]. pose proof Hp as Hp'. unfold pinv in Hp'.
     destruct (h_gr h) as [|stale llgr|rem|p fl] eqn:Eg.
@@ -555,14 +557,15 @@ Proof.
   pose proof (norm_gr_subset fams gr0) as Hwg. pose proof (norm_llgr_subset fams ll0) as Hwl.
   set (gr := norm_gr fams gr0) in *. set (ll := norm_llgr fams ll0) in *. clearbody gr ll.
   destruct (h_sess h) as [s0|] eqn:Es; [exact Hinv|].
-  open_inv h Hinv. subst S.
+  destruct (h_admin_down h) eqn:Ead; [exact Hinv|].
+  open_inv h Hinv. subst S. subst ad.
   change (match gr with Some (l, _, _) => l | None => [] end) with (fams_of_gr gr).
   (* the part of the invariant that does not depend on the phase *)
   assert (forall g' lt' rib',
              (forall r, In r rib' -> In r rib) -> lt' = [] ->
              ginv {| h_gr := g'; h_rtimer := false; h_ltimers := lt'; h_rib := rib';
                      h_sess := Some {| s_gen := gen + 1; s_fams := fams; s_gr := gr; s_llgr := ll |};
-                     h_gen := gen + 1; h_admin_down := ad |}) as Hginv.
+                     h_gen := gen + 1; h_admin_down := false |}) as Hginv.
   { intros g' lt' rib' Hsub Hlt'. constructor; cbn [h_rib h_gen h_sess h_rtimer h_ltimers].
     - intros r Hin. specialize (Hgen r (Hsub r Hin)). lia.
     - intros s Hs. inversion Hs; subst s. cbn [s_gen s_fams s_gr s_llgr].
@@ -571,13 +574,13 @@ Proof.
   assert (forall g' rt' lt' rib' r, In r rib ->
              retained {| h_gr := g'; h_rtimer := rt'; h_ltimers := lt'; h_rib := rib';
                          h_sess := Some {| s_gen := gen + 1; s_fams := fams; s_gr := gr; s_llgr := ll |};
-                         h_gen := gen + 1; h_admin_down := ad |} r = true) as Hold.
+                         h_gen := gen + 1; h_admin_down := false |} r = true) as Hold.
   { intros g' rt' lt' rib' r Hin. unfold retained. cbn. specialize (Hgen r Hin).
     assert (r_sess r =? gen + 1 = false) as -> by lia. reflexivity. }
   destruct g as [|stale llgr|rem|p fl].
   - (* Idle: no route is left from before *)
     assert (rib = []) as -> by (apply (idle_no_session_empty
-        {| h_gr := GIdle; h_rtimer := rt; h_ltimers := lt; h_rib := rib; h_sess := None; h_gen := gen; h_admin_down := ad |});
+        {| h_gr := GIdle; h_rtimer := rt; h_ltimers := lt; h_rib := rib; h_sess := None; h_gen := gen; h_admin_down := false |});
         [exact Hp | reflexivity | reflexivity]).
     destruct Hp as [_ [Hlt _]]. subst lt. cbn.
     split; [apply Hginv; [intros r H; exact H | reflexivity]|].
@@ -621,7 +624,7 @@ Proof.
   - (* PeerReconnected left over from a non-eligible drop: nothing is retained *)
     assert (rib = []) as -> by (apply (reconnected_no_session_empty
         {| h_gr := GPeerReconnected p fl; h_rtimer := rt; h_ltimers := lt; h_rib := rib; h_sess := None;
-           h_gen := gen; h_admin_down := ad |} p fl); [exact Hp | reflexivity | reflexivity]).
+           h_gen := gen; h_admin_down := false |} p fl); [exact Hp | reflexivity | reflexivity]).
     destruct Hp as [_ [Hlt _]]. subst lt.
     assert (gr_step (GPeerReconnected p fl) (GSessionEstablished (fams_of_gr gr)) = (GPeerReconnected p fl, [])) as ->
         by (destruct fl; reflexivity).
@@ -721,11 +724,23 @@ Proof.
           (split; [reflexivity|]); (split; [reflexivity|]); intros r [].
 Qed.
 
+Lemma inv_down_of : forall h s r, inv h -> h_sess h = Some s -> inv (down_of h s r).
+Proof.
+  intros h s r Hinv Es. unfold down_of.
+  destruct h as [g rt lt rib S gen ad]. cbn [h_gr h_rtimer h_ltimers h_rib h_sess h_gen h_admin_down] in *. subst S.
+  cbv zeta. apply down_core. exact Hinv.
+Qed.
+
 Lemma inv_down : forall h r, inv h -> inv (h_step h (HDown r)).
 Proof.
   intros h r Hinv. cbn [h_step]. destruct (h_sess h) as [s|] eqn:Es; [|exact Hinv].
-  destruct h as [g rt lt rib S gen ad]. cbn [h_gr h_rtimer h_ltimers h_rib h_sess h_gen h_admin_down] in *. subst S.
-  cbv zeta. apply down_core. exact Hinv.
+  apply inv_down_of; assumption.
+Qed.
+
+Lemma inv_force : forall h, inv h -> inv (h_step h HForceDown).
+Proof.
+  intros h Hinv. cbn [h_step]. cbv zeta. pose proof (inv_force_timers h Hinv) as H2.
+  destruct (h_sess (force_timers h)) as [s|] eqn:Es; [apply inv_down_of; assumption | exact H2].
 Qed.
 
 Lemma inv_step : forall h e, inv h -> inv (h_step h e).
@@ -810,7 +825,9 @@ Theorem C10_failed_reconnect_keeps_timer :
     h_ltimers h' = h_ltimers h /\ h_rib h' = h_rib h /\ h_gr h' = h_gr h /\ h_sess h' = h_sess h
     /\ (is_peer_restarting (h_gr h) = true -> h_rtimer h' = h_rtimer h).
 Proof.
-  intros h. cbn. repeat split. intros ->. reflexivity.
+  intros h. cbn [h_step]. cbv zeta. destruct (h_admin_down h); [repeat split; reflexivity|].
+  destruct (h_sess h) eqn:E; [repeat split; try reflexivity; exact E|].
+  cbn. repeat split; try assumption. intros ->. reflexivity.
 Qed.
 
 (* (b) NO_LLGR routes are gone when the LLGR period of their family starts *)
@@ -856,7 +873,7 @@ Proof.
   - destruct (h_sess h) as [s|]; [|assumption]. destruct (s_gr s); [|assumption].
     destruct (gr_step (h_gr h) (GEorReceived f)) as [g' outs]. cbn [h_rib upd_h].
     apply in_drop_llgr_stale. split; [apply in_drop_stale; split; [assumption|]|]; rewrite ?Hs, ?Hl; apply andb_false_r.
-  - destruct (h_sess h) as [s|]; [assumption|].
+  - cbv zeta. destruct (h_sess h) as [s|]; [assumption|]. destruct (h_admin_down h); [assumption|].
     destruct (gr_step (h_gr h) _) as [g' outs]. cbn [h_rib].
     apply in_drop_llgr_stale. split; [apply in_drop_stale; split; [assumption|]|]; rewrite ?Hs, ?Hl; apply andb_false_r.
 Qed.
@@ -972,7 +989,7 @@ Proof.
   pose proof (inv_down h rs Hinv) as Hinv'. fold h' in Hinv'.
   (* nothing is negotiated as far as the disconnect handling is concerned *)
   assert (h_gr h' = h_gr h /\ h_sess h' = None) as [Hg' Hs'].
-  { subst h'. cbn [h_step]. rewrite Hs. cbv zeta. unfold not_eligible in Hne.
+  { subst h'. cbn [h_step]. rewrite Hs. unfold down_of. cbv zeta. unfold not_eligible in Hne.
     destruct (h_admin_down h) eqn:Ea; [split; reflexivity|]. cbn [orb] in Hne.
     destruct (s_gr s) as [[[l rt] nb]|].
     - apply negb_true_iff in Hne. rewrite Hne. destruct rs; cbn in Hne; try discriminate; split; reflexivity.
